@@ -1,8 +1,10 @@
 #!/bin/sh
-# Runs every quick check against every behaviour-preserving patch in /verif/benign: all must stay silent.
+# Runs every quick check against behaviour-preserving patches: all must stay silent.
+# usage: mk/benign_test.sh [patch...]   (default: benign/*.diff)
 cd /verif
 ALL="C03 C04 C05 C06 C07 C08 C09 C10 C11 C12 C13 C14 C15 C16 C17 C18 C19 C20"
-for p in ${1:-benign/*.diff}; do
-  LINES_MAX=4 mk/try_patch.sh "$p" $ALL 2>&1 | grep -E "^===|VIOLATION|HARNESS|KNOWN|violation\(s\)" | grep -v " 0 violation(s), 0 known" 
+[ $# -gt 0 ] || set -- benign/*.diff
+for p in "$@"; do
+  LINES_MAX=6 mk/try_patch.sh "$p" $ALL 2>&1 | grep -E "^===|^---- |VIOLATION|HARNESS|KNOWN|violation\(s\)" | grep -v " 0 violation(s), 0 known" | awk '/^===/{h=$0; next} {if (h!="") {print h; h=""} print}' | cut -c1-260
   echo "--- done $p"
 done
